@@ -48,11 +48,11 @@ REAL = ['smartquery.functions (regex builtins, flag parsing)', 'evaluator', 'reg
 STUB = ['regex engine for TIMING (virtual clock charged with the timeout passed)', 'wall clock read through time.*', 'host wait()']
 SIM_TIME = 'virtual seconds charged to regex engine entries and host waits (see counters virtual_ms)'
 REACH_PROBES = ('match', 'match_groups', 'match_all', 'flags', 'inside_lambda', 'long_subject', 'nested_quantifier', 'two_groups',
-                'time_passed_before_call', 'engine_entries', 'slow_last_argument')
+                'time_passed_before_call', 'engine_entries', 'slow_last_argument', 'engine_timeout_raised', 'host_calls_returned_lambda')
 
 FLAGS = [None, '', 'i', 'm', 's', 'ims', 'IM', 'is', 'x', 'zz', 'iiii']
 BENIGN = ['\\d+', '[a-z]+', '(\\w)(\\d)', 'b', '.', 'a|b', '^a', 'c$', '(a)(b)?', '\\s']
-NASTY = ['^(\\w+-?)+{id}$', 'a{x}(b+)+$', '(a+)+$', '(a|aa)+$', '(a*)*b', '(a|a)*c', '(.*a){12}', '(a+)+(b)$', '((a+)(c?))+$', '(?:a{1,50}){1,50}b', '(\\w+\\s?)*$',
+NASTY = ['(?:a|aa)+?', '(a|aa)+?(?=a|b)', '^(\\w+-?)+{id}$', 'a{x}(b+)+$', '(a+)+$', '(a|aa)+$', '(a*)*b', '(a|a)*c', '(.*a){12}', '(a+)+(b)$', '((a+)(c?))+$', '(?:a{1,50}){1,50}b', '(\\w+\\s?)*$',
          '(a|aa)+(c)$', '(?r)(a+)+b', '(?:aa|a)+?x{e<=1}', '(x+x+)+y', '(a)(b)\\1\\2(a+)+$']
 
 
@@ -100,7 +100,12 @@ def generate(seed, tier):
                 stmts.append(['call', 'wait', [['num', ro.choice(['0.2', '0.6', '1', '3', '0.01'])]], 'plain'])
                 kinds.append('wait')
         ops.append({'op': 'eval', 'prog': ['block', stmts], 'style': gen.style(S['render']), 'kinds': kinds})
-    return {'world': {'adv_len': rc.choice([18, 22, 26]), 'long_len': rc.choice([3000, 8000, 20000]), 'huge_len': 100000}, 'ops': ops}
+    if rc.random() < 0.3:
+        # the host keeps a lambda an evaluation returned and calls it itself later, outside any evaluation
+        fn = rc.choice(['match', 'match_groups', 'match_all'])
+        ops.append({'op': 'host_lambda', 'src': 'v => %s(v, "%s")' % (fn, rc.choice(['(a+)+$', '\\\\d+', '(a|aa)+$'])), 'subject': rc.choice(['ADV', 'S', 'LONG'])})
+    return {'world': {'adv_len': rc.choice([18, 22, 26]), 'long_len': rc.choice([3000, 8000, 20000]), 'huge_len': 100000,
+                      'inject_timeouts': rc.random() < 0.5}, 'ops': ops}
 
 
 def execute(case, ctx):
@@ -124,6 +129,7 @@ def execute(case, ctx):
     names['slow'] = slow
     parser = boot.fresh_parser()
     REGEX.reset('virtual')
+    REGEX.inject_timeouts = bool(w.get('inject_timeouts'))
     state = {'adv_after_wait': False}
 
     def pre(name, args, rec):
@@ -138,9 +144,40 @@ def execute(case, ctx):
             return          # the regex builtins called by the lambda were judged on their own
         elapsed = REGEX.clock - clock0
         rec.findings.append((name, new, elapsed))
+    def judge_entries(entries, what, name):
+        for fn, timeout, plen, slen in entries:
+            ok = isinstance(timeout, (int, float)) and not isinstance(timeout, bool) and timeout == timeout and 0 < timeout <= ENTRY_MAX + ENTRY_PER_CHAR * (plen + slen)
+            if not ok:
+                ctx.report('regex_entry_without_bounded_timeout',
+                           '%s: %s entered a regular-expression engine through %s with timeout=%r (pattern %d chars, subject %d chars): nothing bounds '
+                           'the time an adversarial input can take there' % (what, name, fn, timeout, plen, slen),
+                           {'kind': 'regex_entry_without_bounded_timeout', 'builtin': name})
+
     for step, op in enumerate(case['ops']):
         ctx.step = step
+        if op['op'] == 'host_lambda':
+            f = None
+            try:
+                f = parser.eval(op['src'], names, max_ops_evaluated=100)
+            except Exception:
+                pass
+            if callable(f):
+                n0 = len(REGEX.entries)
+                c0 = REGEX.clock
+                try:
+                    f(names[op['subject']])
+                except Exception:
+                    pass
+                ctx.probe('host_calls_returned_lambda')
+                ctx.fault('call_outside_eval')
+                what = 'step %d: the host called the lambda returned by eval(%r) on %s, outside any evaluation' % (step, op['src'], op['subject'])
+                judge_entries(REGEX.entries[n0:], what, 'a regex builtin')
+                if REGEX.clock - c0 > CALL_BOUND + PER_CHAR * 100000:
+                    ctx.report('regex_call_exceeds_time_bound', '%s: charged %.3f virtual seconds' % (what, REGEX.clock - c0),
+                               {'kind': 'regex_call_exceeds_time_bound', 'builtin': 'outside_eval'})
+            continue
         src = lang.render(op['prog'], op.get('style', 0))
+        n_entries0 = len(REGEX.entries)
         rec = monitors.Rec()
         rec.pre_builtin_hooks = (pre,)
         rec.builtin_hooks = (post,)
@@ -153,20 +190,27 @@ def execute(case, ctx):
         what = 'step %d %r' % (step, src[:200])
         if rout.kind == 'base':
             ctx.report('non_exception_escaped', '%s: %r' % (what, rout.exc), {'kind': 'non_exception_escaped'})
+        attributed = 0
         for name, entries, elapsed in rec.findings:
             ctx.probe('engine_entries', len(entries))
-            chars = 0
-            for fn, timeout, plen, slen in entries:
-                chars = max(chars, plen + slen)
-                ok = isinstance(timeout, (int, float)) and not isinstance(timeout, bool) and timeout == timeout and 0 < timeout <= ENTRY_MAX + ENTRY_PER_CHAR * (plen + slen)
-                if not ok:
-                    ctx.report('regex_entry_without_bounded_timeout',
-                               '%s: builtin %s entered the regex engine through %s with timeout=%r (pattern %d chars, subject %d chars): an adversarial '
-                               'subject can keep the host busy for that long (None / <= 0 means no limit)' % (what, name, fn, timeout, plen, slen),
-                               {'kind': 'regex_entry_without_bounded_timeout', 'builtin': name})
+            attributed += len(entries)
+            chars = max([plen + slen for fn, timeout, plen, slen in entries] or [0])
+            judge_entries(entries, what, 'builtin ' + name)
             if elapsed > CALL_BOUND + PER_CHAR * chars:
                 ctx.report('regex_call_exceeds_time_bound', '%s: one call of %s was charged %.3f virtual seconds over %d engine entries' % (
                     what, name, elapsed, len(entries)), {'kind': 'regex_call_exceeds_time_bound', 'builtin': name})
+        # engine entries made while this evaluation ran but outside every builtin call (say, while the call expression
+        # was being parsed) count against it just the same
+        stray = REGEX.entries[n_entries0:]
+        if len(stray) > attributed:
+            seen = set()
+            for name, entries, elapsed in rec.findings:
+                seen.update(id(e) for e in entries)
+            judge_entries([e for e in stray if id(e) not in seen], what, 'the evaluation (outside any builtin call)')
+        if REGEX.timeouts_injected:
+            ctx.fault('regex_timeout_injected', REGEX.timeouts_injected)
+            ctx.probe('engine_timeout_raised')
+            REGEX.timeouts_injected = 0
         kinds = op.get('kinds', ())
         for k in kinds:
             if k in REACH_PROBES:
@@ -198,4 +242,4 @@ def _real_compile_probe(case, ctx):
 
 
 def sample(case):
-    return {'ops': [lang.render(o['prog'], 0) for o in case.get('ops', [])][:4]}
+    return {'ops': [lang.render(o['prog'], 0) if 'prog' in o else o for o in case.get('ops', [])][:4]}
